@@ -116,6 +116,8 @@ def impl_quad(c):
     out['weights'] = qs([ff(v) for v in w])
     # the weights are a function of the space: a second request, a second interpolator on the same BSplines
     # object and the stored integrals afterwards must not depend on the requests made before
+    # (the array handed out belongs to the caller, who may fold a Jacobian into it in place)
+    w *= 3.0
     out['weights_again'] = qs([ff(v) for v in it.get_quadrature_coefficients()])
     out['weights_other'] = qs([ff(v) for v in SplineInterpolator1D(b).get_quadrature_coefficients()])
     out['integrals_after'] = qs([ff(v) for v in b.integrals])
